@@ -287,8 +287,14 @@ func (t *Tables) DrawAllowed(rt *rapid.T, pool []Term, excPool []string, maxLen 
 		k := rapid.IntRange(0, 11).Draw(rt, label+"Kind")
 		src := rapid.SampledFrom(pool).Draw(rt, label+"Src")
 		switch {
-		case k == 0 && len(out) > 0: // duplicate of an earlier entry
-			out = append(out, rapid.SampledFrom(out).Draw(rt, label+"Dup"))
+		case k == 0 && len(out) > 0: // duplicate of an earlier entry, mostly right next to it
+			if rapid.Bool().Draw(rt, label+"Adjacent") {
+				out = append(out, out[len(out)-1])
+			} else {
+				out = append(out, rapid.SampledFrom(out).Draw(rt, label+"Dup"))
+			}
+		case k == 11 && len(out) > 0: // sibling of an earlier entry: one attribute changed
+			out = append(out, t.sibling(rt, rapid.SampledFrom(out).Draw(rt, label+"SibOf"), excPool, label))
 		case k == 1: // unrelated id
 			out = append(out, t.MakeLicTerm(rapid.SampledFrom(t.UnrelatedIDs()).Draw(rt, label+"Unrel"), "", 0, "", 0, "", ""))
 		case k == 2: // the very term
@@ -327,6 +333,59 @@ func (t *Tables) DrawAllowed(rt *rapid.T, pool []Term, excPool []string, maxLen 
 		}
 	}
 	return out
+}
+
+// sibling varies exactly one attribute of an entry: its exception, its '+', its case, or (for a
+// reference) its DocumentRef or the case of its name — the entries that a lossy de-duplication,
+// sort key or cache key would confuse with the original.
+func (t *Tables) sibling(rt *rapid.T, e Term, excPool []string, label string) Term {
+	if e.Kind == "ref" {
+		switch rapid.IntRange(0, 2).Draw(rt, label+"SibRef") {
+		case 0:
+			if e.Doc == "" {
+				return MakeRefTerm(rapid.SampledFrom(docNames).Draw(rt, label+"SibDoc"), e.Ref)
+			}
+			return MakeRefTerm("", e.Ref)
+		case 1:
+			return MakeRefTerm(e.Doc, recase(e.Ref, 2))
+		}
+		return MakeRefTerm(recase(e.Doc, 2), e.Ref)
+	}
+	form, exc := e.Form, e.Exc
+	cv := uint32(0)
+	switch rapid.IntRange(0, 3).Draw(rt, label+"SibLic") {
+	case 0: // other exception / none
+		if exc == "" {
+			exc = rapid.SampledFrom(t.Exceptions).Draw(rt, label+"SibExcNew")
+		} else if rapid.Bool().Draw(rt, label+"SibExcDrop") {
+			exc = ""
+		} else {
+			exc = rapid.SampledFrom(append(append([]string{}, excPool...), t.Exceptions[0], t.Exceptions[len(t.Exceptions)-1])).Draw(rt, label+"SibExc")
+		}
+	case 1: // toggle '+'
+		switch form {
+		case "":
+			form = "+"
+		case "+":
+			form = ""
+		case "-only":
+			form = "-or-later"
+		default:
+			form = "-only"
+		}
+		if !t.FormValid(e.Base, form) {
+			form = "+"
+		}
+	case 2:
+		cv = drawCase(rt, label+"SibCase") + 1
+	default: // another version of the family, same exception
+		base := rapid.SampledFrom(t.Relatives(e.Base)).Draw(rt, label+"SibBase")
+		if !t.FormValid(base, form) {
+			form = ""
+		}
+		return t.MakeLicTerm(base, form, 0, exc, 0, " ", " ")
+	}
+	return t.MakeLicTerm(e.Base, form, cv, exc, 0, " ", " ")
 }
 
 func (t *Tables) withExc(term Term, exc string, cv uint32) Term {
